@@ -192,11 +192,11 @@ package engine
 //@   at-call InstantiationError#1 requires[an-unbound-element-of-the-list-is-an-instantiation-error] ra is Variable && called(cur1) && resolve(env, cur1) is Variable && a0 == env
 //@   at-call typeError#1 requires[an-element-that-is-not-an-integer-is-not-a-code] called(cur1) && !(resolve(env, cur1) is Variable) && !(resolve(env, cur1) is Integer) &&
 //@       a0 == validTypeInteger && a1 == resolve(env, cur1) && a2 == env
-//@   at-call representationError#1 requires[an-integer-outside-the-code-range-is-not-a-character-code] called(cur1) && resolve(env, cur1) is Integer &&
-//@       ((resolve(env, cur1) as Integer) < 0 || (resolve(env, cur1) as Integer) > 1114111) && a0 == flagCharacterCode && a1 == env
+//@   at-call representationError#1 requires[an-integer-that-is-not-a-unicode-scalar-value-is-not-a-character-code] called(cur1) && resolve(env, cur1) is Integer &&
+//@       !((0 <= (resolve(env, cur1) as Integer) && (resolve(env, cur1) as Integer) < 55296) || (57343 < (resolve(env, cur1) as Integer) && (resolve(env, cur1) as Integer) <= 1114111)) && a0 == flagCharacterCode && a1 == env
 //@   at-call (*strings.Builder).WriteRune requires[each-code-contributes-the-character-with-exactly-that-code-at-the-end-of-the-text] a0 == &sb && called(cur1) && resolve(env, cur1) is Integer &&
-//@       0 <= (resolve(env, cur1) as Integer) && (resolve(env, cur1) as Integer) <= 1114111 && a1 == (resolve(env, cur1) as Integer)
-//@   loop 1 maintains[every-element-passed-is-a-code-within-the-range] called(cur1) && resolve(env, cur1) is Integer && 0 <= (resolve(env, cur1) as Integer) && (resolve(env, cur1) as Integer) <= 1114111
+//@       ((0 <= (resolve(env, cur1) as Integer) && (resolve(env, cur1) as Integer) < 55296) || (57343 < (resolve(env, cur1) as Integer) && (resolve(env, cur1) as Integer) <= 1114111)) && a1 == (resolve(env, cur1) as Integer)
+//@   loop 1 maintains[every-element-passed-is-the-code-of-a-character-a-unicode-scalar-value] called(cur1) && resolve(env, cur1) is Integer && ((0 <= (resolve(env, cur1) as Integer) && (resolve(env, cur1) as Integer) < 55296) || (57343 < (resolve(env, cur1) as Integer) && (resolve(env, cur1) as Integer) <= 1114111))
 //@   at-call (*strings.Builder).String requires[the-name-is-read-from-the-text-the-characters-went-into] a0 == &sb
 //@   at-call NewAtom requires[the-atom-is-named-by-the-collected-text] a0 == builderText(&sb, gf(sbversion, &sb))
 //@   at-call Unify#1 requires[the-unbound-first-argument-receives-the-atom-of-the-collected-characters-of-a-proper-list] ra is Variable && called(name) &&
@@ -207,10 +207,10 @@ package engine
 //@   at-call (*Env).Resolve#3 requires[each-element-of-the-given-list-is-looked-at-under-the-caller-s-bindings] a0 == env && called(cur2) && a1 == cur2
 //@   at-call typeError#2 requires[an-element-that-is-neither-unbound-nor-an-integer-is-not-a-code] called(cur2) && !(resolve(env, cur2) is Variable) && !(resolve(env, cur2) is Integer) &&
 //@       a0 == validTypeInteger && a1 == resolve(env, cur2) && a2 == env
-//@   at-call representationError#2 requires[an-integer-outside-the-code-range-is-not-a-character-code] called(cur2) && resolve(env, cur2) is Integer &&
-//@       ((resolve(env, cur2) as Integer) < 0 || (resolve(env, cur2) as Integer) > 1114111) && a0 == flagCharacterCode && a1 == env
-//@   loop 2 maintains[every-element-passed-is-unbound-or-a-code-within-the-range] called(cur2) && (resolve(env, cur2) is Variable ||
-//@       (resolve(env, cur2) is Integer && 0 <= (resolve(env, cur2) as Integer) && (resolve(env, cur2) as Integer) <= 1114111))
+//@   at-call representationError#2 requires[an-integer-that-is-not-a-unicode-scalar-value-is-not-a-character-code] called(cur2) && resolve(env, cur2) is Integer &&
+//@       !((0 <= (resolve(env, cur2) as Integer) && (resolve(env, cur2) as Integer) < 55296) || (57343 < (resolve(env, cur2) as Integer) && (resolve(env, cur2) as Integer) <= 1114111)) && a0 == flagCharacterCode && a1 == env
+//@   loop 2 maintains[every-element-passed-is-unbound-or-the-code-of-a-character] called(cur2) && (resolve(env, cur2) is Variable ||
+//@       (resolve(env, cur2) is Integer && ((0 <= (resolve(env, cur2) as Integer) && (resolve(env, cur2) as Integer) < 55296) || (57343 < (resolve(env, cur2) as Integer) && (resolve(env, cur2) as Integer) <= 1114111))))
 //@   at-call Unify#2 requires[the-empty-atom-has-the-empty-list] ra is Atom && len(Atom.String(ra as Atom)) == 0 &&
 //@       ((a1 == codes && isAtomTerm(a2, atomEmptyList)) || (a2 == codes && isAtomTerm(a1, atomEmptyList))) && called(lerr2) && lerr2 == nil
 //@   at-call Unify#3 requires[the-second-argument-receives-the-code-list-of-the-atom-s-name] ra is Atom &&
